@@ -24,6 +24,7 @@ def spawn(job, hashseed, timeout=180):
         'PYTHONDONTWRITEBYTECODE': '1',
         'HOME': '/nonexistent',
     }
+    env.update({k: str(v) for k, v in (job.get('env') or {}).items()})
     cmd = [sys.executable, '-m', 'simstone.proc', path]
     if _SETARCH:
         cmd = [_SETARCH, 'x86_64', '-R'] + cmd
